@@ -156,7 +156,7 @@ def check_unbalanced_dof(run, E):
             ds, od = args
             app = getattr(p.value, 'app', None)
             ok = app is not None and app[0] == NZ + '_estimate_covariance'
-            ck.ensure('post/delegates-to-estimator', z3.BoolVal(ok))
+            ck.ensure('post/delegates-to-estimator', z3.BoolVal(ok), structure=True)
             if not ok:
                 return
             matrix, dof, method = app[1]
